@@ -2477,7 +2477,16 @@ impl<F: ConfigField + Default> ConfigField for Option<F> {
     }
 
     fn set(&mut self, key: &str, value: &str) -> Result<()> {
-        self.get_or_insert_with(Default::default).set(key, value)
+        match self {
+            Some(inner) => inner.set(key, value),
+            None => {
+                // only materialise the option when the value was accepted
+                let mut inner = F::default();
+                inner.set(key, value)?;
+                *self = Some(inner);
+                Ok(())
+            }
+        }
     }
 
     fn reset(&mut self, key: &str) -> Result<()> {
